@@ -166,10 +166,9 @@ theorem asArray_field (isZero : V → Bool) (src : VF V) (m : Mesh) (nv : Nat)
         have ha' : a < m.ndim := by rw [← hnd]; exact ha
         exact ⟨le_trans (hin a ha').1 (hlt a ha').le, (hin a ha').2⟩
     simp [h1, h2]
-  have hbr : ¬ (src.nvdim = 1 ∧ nv ≠ 1) := by rw [hnv]; tauto
   refine ⟨⟨m.n ++ [src.nvdim], fun j => src.data.get (nearestIdx src.mesh m j.dropLast ++ [j.getLastD 0])⟩,
     ?_, by rw [hnv], fun i c hi => ⟨?_, fun a ha => ?_⟩⟩
-  · simp [asArray, asLeaf, hc, hdims, hbr]
+  · simp [asArray, asLeaf, hc, hdims, hnv]
   · simp [List.getLastD_eq_getLast?]
   · obtain ⟨hil, hib⟩ := (inRange_iff m.n i).mp hi
     have hia : i.getD a 0 < m.nAt a := hib a (by omega)
@@ -201,26 +200,14 @@ theorem updateValues_eq (isZero : V → Bool) (s : Spec V) (m : Mesh) (nv : Nat)
   rw [h]
   simpa [asArray] using hb
 
-/-- …and a value the first conversion let through with the wrong component count (a source field
-with another `nvdim`) is caught by the second one. -/
-theorem updateValues_field_wrong_nvdim_rejected (isZero : V → Bool) (src : VF V) (m : Mesh)
-    (nv : Nat) (h1 : src.nvdim ≠ nv) (h2 : src.nvdim ≠ 1) :
-    ∃ e, updateValues isZero (.leaf (.field src)) m nv = .error e := by
-  have hbr : ¬ (src.nvdim = 1 ∧ nv ≠ 1) := fun h => h2 h.1
-  have hl : (m.n ++ [src.nvdim]).getLast? ≠ some nv := by simp [h1]
-  have hne : ¬ (nv = 1 ∧ m.n ++ [src.nvdim] = m.n) := by
-    rintro ⟨_, h⟩
-    have := congrArg List.length h
-    simp at this
-  unfold updateValues
+/-- A source field with another number of components is rejected (wrong component count), by the
+conversion itself — hence by the constructor, by `update_field_values` and by the `array` setter. -/
+theorem asArray_field_wrong_nvdim_rejected (isZero : V → Bool) (src : VF V) (m : Mesh) (nv : Nat)
+    (h1 : src.nvdim ≠ nv) : asArray isZero (.leaf (.field src)) m nv = .error .value := by
   simp only [asArray, asLeaf]
   by_cases hc : src.mesh.region.containsReg m.region = true
-  · by_cases hd : m.region.dims = src.mesh.region.dims
-    · refine ⟨.value, ?_⟩
-      simp [hc, hd, hbr, hne]
-      intro h; exact absurd h h1
-    · exact ⟨.key, by simp [hc, hd]⟩
-  · exact ⟨.value, by simp [hc]⟩
+  · simp [hc, h1]
+  · simp [hc]
 
 /-! ## sampling, components, iteration -/
 
@@ -331,7 +318,7 @@ theorem line_points (f : VF V) (p1 p2 : List Rat) (n : Nat) (o : LineOut V) (h :
     o.points.length = n ∧ o.values.length = n ∧ o.r2.length = n ∧
     ∀ j a, j < n → a < f.mesh.ndim →
       (o.points.getD j []).getD a 0 = p1.getD a 0 + (j : Rat) * ((p2.getD a 0 - p1.getD a 0) / ((n : Rat) - 1)) := by
-  obtain ⟨_, hml, hv, hr⟩ := line_ok f p1 p2 n o h
+  obtain ⟨hml, hv, hr⟩ := line_ok f p1 p2 n o h
   obtain ⟨_, _, _, hpts⟩ := meshLine_ok _ _ _ _ _ hml
   have hl : o.points.length = n := by rw [hpts]; simp
   refine ⟨hl, ?_, by rw [hr]; simp [hl], fun j a hj ha => ?_⟩
@@ -343,7 +330,7 @@ omit [Inhabited V] in
 /-- The line runs from `p1` to `p2` inclusive. -/
 theorem line_ends (f : VF V) (p1 p2 : List Rat) (n : Nat) (o : LineOut V) (h : f.line p1 p2 n = .ok o) :
     o.points.getD 0 [] = p1 ∧ o.points.getD (n - 1) [] = p2 := by
-  obtain ⟨_, hml, _, _⟩ := line_ok f p1 p2 n o h
+  obtain ⟨hml, _, _⟩ := line_ok f p1 p2 n o h
   obtain ⟨hc1, hc2, hn, hpts⟩ := meshLine_ok _ _ _ _ _ hml
   have hl1 := containsPt_length _ _ hc1
   have hl2 := containsPt_length _ _ hc2
@@ -378,7 +365,7 @@ omit [Inhabited V] in
 theorem line_r2 (f : VF V) (p1 p2 : List Rat) (n : Nat) (o : LineOut V) (h : f.line p1 p2 n = .ok o)
     (j : Nat) (hj : j < n) :
     o.r2.getD j 0 = ((j : Rat) * (j : Rat)) / (((n : Rat) - 1) * ((n : Rat) - 1)) * sqDist p2 p1 := by
-  obtain ⟨_, hml, _, hr⟩ := line_ok f p1 p2 n o h
+  obtain ⟨hml, _, hr⟩ := line_ok f p1 p2 n o h
   obtain ⟨_, hc2, hn, hpts⟩ := meshLine_ok _ _ _ _ _ hml
   have hl : o.points.length = n := by rw [hpts]; simp
   rw [hr]
@@ -393,7 +380,7 @@ omit [Inhabited V] in
 theorem line_values (f : VF V) (p1 p2 : List Rat) (n : Nat) (o : LineOut V) (h : f.line p1 p2 n = .ok o)
     (j : Nat) (hj : j < n) : f.call (o.points.getD j []) = .ok (o.values.getD j []) := by
   obtain ⟨hl, hvl, _, _⟩ := line_points f p1 p2 n o h
-  obtain ⟨_, _, hv, _⟩ := line_ok f p1 p2 n o h
+  obtain ⟨_, hv, _⟩ := line_ok f p1 p2 n o h
   have := congrArg (fun l => l[j]?) hv
   simp only [List.getElem?_map] at this
   rw [List.getElem?_eq_getElem (by omega), List.getElem?_eq_getElem (by omega)] at this
@@ -409,18 +396,6 @@ theorem line_outside_rejected (f : VF V) (p1 p2 : List Rat) (n : Nat)
     f.line p1 p2 n = .error .value := by
   unfold VF.line meshLine
   rcases h with h | h <;> simp [h]
-
-omit [Inhabited V] in
-/-- † Finding D43: on a 1-d mesh `Field.line` never succeeds (the code's `Mesh.line` yields bare
-numbers and `Line.__init__` then fails), although the property promises a line for every mesh. -/
-theorem line_1d_rejected (f : VF V) (p1 p2 : List Rat) (n : Nat) (h : f.mesh.ndim = 1) :
-    ∃ e, f.line p1 p2 n = .error e := by
-  unfold VF.line
-  split
-  · exact ⟨_, rfl⟩
-  · split
-    · exact ⟨_, rfl⟩
-    · exact ⟨.index, by simp [h]⟩
 
 /-! ## rejected assignments -/
 
@@ -457,16 +432,15 @@ theorem update_malformed_rejected (isZero : V → Bool) (f : VF V) :
   · simp [VF.update, updateValues, asArray_scalar_rejected isZero v f.mesh f.nvdim h1 h2]
   · simp [VF.update, updateValues, asArray_wrong_count_rejected isZero a f.mesh f.nvdim h1 h2]
 
-/-- † Finding D44: the `array` setter converts only once, and the source-field overload does not
-check the component count, so `field.array = other_field` with another `nvdim` is ACCEPTED and
-leaves an array whose last axis is not `nvdim` (`update_field_values` rejects it, see
-`updateValues_field_wrong_nvdim_rejected`). -/
-theorem setArray_field_wrong_nvdim_accepted (isZero : V → Bool) (f : VF V) (src : VF V)
-    (hc : src.mesh.region.containsReg f.mesh.region = true) (hd : f.mesh.region.dims = src.mesh.region.dims)
-    (h2 : src.nvdim ≠ 1) :
-    ∃ g, f.setArray isZero (.field src) = .ok g ∧ g.data.shape = f.mesh.n ++ [src.nvdim] := by
-  have hbr : ¬ (src.nvdim = 1 ∧ f.nvdim ≠ 1) := fun h => h2 h.1
-  refine ⟨_, by simp only [VF.setArray, asLeaf, hc, hd, hbr]; simp; rfl, rfl⟩
+/-- The `array` setter rejects a source field with another number of components and keeps the
+field as it was (formerly finding D44: the setter accepted it). -/
+theorem setArray_field_wrong_nvdim_rejected (isZero : V → Bool) (f : VF V) (src : VF V) (h : src.nvdim ≠ f.nvdim) :
+    f.setArray isZero (.field src) = .error .value ∧ f.after (f.setArray isZero (.field src)) = f := by
+  have e : f.setArray isZero (.field src) = .error .value := by
+    have := asArray_field_wrong_nvdim_rejected isZero src f.mesh f.nvdim h
+    simp only [asArray] at this
+    simp [VF.setArray, this]
+  exact ⟨e, by rw [e]; rfl⟩
 
 /-! ## dictionaries over subregions -/
 
@@ -504,7 +478,6 @@ otherwise from the default. -/
 theorem asArray_dict_first_listed (isZero : V → Bool) (items : List (String × Leaf V)) (dflt : Option (Dflt V))
     (m : Mesh) (hm : m.Inv) (nv : Nat) (a : NDA V) (k1 k2 : String × Region → Nat → Nat)
     (hal : ∀ p ∈ m.subs, AlignedSub m p.2 (k1 p) (k2 p))
-    (hfield : ∀ q ∈ items, ∀ src, q.2 = .field src → src.nvdim = nv)
     (h : asArray isZero (.dict items dflt) m nv = .ok a)
     (i : List Nat) (hi : inRange m.n i = true) (c : Nat) (hc : c < nv) :
     a.get (i ++ [c]) =
@@ -518,9 +491,7 @@ theorem asArray_dict_first_listed (isZero : V → Bool) (items : List (String ×
   · cases m.subs.find? (hits items m k1 k2 i) <;> rfl
   · intro p hp lf hl
     obtain ⟨sub, hsub⟩ := listed_leaf_ok isZero items dflt m hm nv a h k1 k2 p hp (hal p hp) lf hl
-    refine ⟨sub, hsub, asLeaf_shape isZero lf _ nv sub hsub fun src e => ?_⟩
-    obtain ⟨q, hq, hq2⟩ := lookupLeaf_mem items p.1 lf hl
-    exact hfield q hq src (by rw [hq2, e])
+    exact ⟨sub, hsub, asLeaf_shape isZero lf _ nv sub hsub⟩
 
 /-- What a listed subregion assigns to a cell it contains: a constant gives the constant, … -/
 theorem dict_cell_const (isZero : V → Bool) (items : List (String × Leaf V)) (m : Mesh) (nv : Nat)
@@ -588,7 +559,7 @@ theorem asArray_dict_accepts (isZero : V → Bool) (items : List (String × Leaf
         sub.shape = (subMeshOf m p.2 (k1 p) (k2 p)).n ++ [nv])
     (hd : bcastOk (m.n ++ [nv]) d.shape = true) :
     ∃ a, asArray isZero (.dict items (some (.val d))) m nv = .ok a ∧ a.shape = m.n ++ [nv] := by
-  have hfill : fillOf (none : Option V) (some (.val d)) m nv =
+  have hfill : fillOf (some (.val d)) m nv =
       .ok (NDA.map some ⟨m.n ++ [nv], fun j => d.get (bcastIdx (m.n ++ [nv]) d.shape j)⟩) := by
     simp [fillOf, bcast, hd]
   obtain ⟨a1, ha1, hs1⟩ := dictLoop_ok isZero items m hm nv k1 k2 m.subs.reverse
@@ -598,24 +569,44 @@ theorem asArray_dict_accepts (isZero : V → Bool) (items : List (String × Leaf
   refine ⟨unwrap a1, by simp [asArray, hfill, ha1, hany], ?_⟩
   exact (dictLoop_get isZero items m nv _ _ a1 ha1).1
 
-/-- † Finding D41: for a dtype that cannot hold NaN (int, bool) `np.full(…, np.nan, dtype)` stores
-the cast value `g`, `np.isnan` never fires, and a dictionary whose default is callable or missing
-leaves `g` in every cell no listed subregion covers — no default pass, no `KeyError`.  (Shown on a
-mesh without subregions; the property's theorems above are stated for `junk = none`.) -/
-theorem dict_sentinel_lost (isZero : V → Bool) (g : V) (items : List (String × Leaf V)) (dflt : Option (Dflt V))
-    (m : Mesh) (nv : Nat) (hs : m.subs = []) (hd : dflt = none ∨ ∃ f, dflt = some (.func f)) :
-    ∃ a, asArray isZero (some g) (.dict items dflt) m nv = .ok a ∧ ∀ j, a.get j = g := by
-  have hany : anyNone (NDA.const (m.n ++ [nv]) (some g)) = false :=
-    anyNone_of_all_some _ fun _ => rfl
-  refine ⟨unwrap (NDA.const (m.n ++ [nv]) (some g)), ?_, fun _ => rfl⟩
-  rcases hd with rfl | ⟨f, rfl⟩ <;> simp [asArray, fillOf, hs, dictLoop, hany]
+/-- The default is applied for EVERY value type (formerly finding D41: int and bool fields lost
+the NaN sentinel): a cell that no listed subregion writes receives the callable default's value
+at the cell centre, … -/
+theorem dict_default_callable (isZero : V → Bool) (items : List (String × Leaf V)) (f : List Rat → List V)
+    (m : Mesh) (nv : Nat) (a : NDA V) (hlen : m.n.length = m.ndim)
+    (h : asArray isZero (.dict items (some (.func f))) m nv = .ok a)
+    (i : List Nat) (hi : inRange m.n i = true) (c : Nat) (hc : c < nv)
+    (hun : (m.subs.findSome? fun p => patchVal isZero items m nv p (i ++ [c])) = none) :
+    a.get (i ++ [c]) = (f (m.centre i)).getD c default := by
+  rw [asArray_dict isZero items _ m nv a hlen h i hi c hc, hun]; rfl
+
+/-- … a constant default's value, … -/
+theorem dict_default_const (isZero : V → Bool) (items : List (String × Leaf V)) (d : NDA V)
+    (m : Mesh) (nv : Nat) (a : NDA V) (hlen : m.n.length = m.ndim)
+    (h : asArray isZero (.dict items (some (.val d))) m nv = .ok a)
+    (i : List Nat) (hi : inRange m.n i = true) (c : Nat) (hc : c < nv)
+    (hun : (m.subs.findSome? fun p => patchVal isZero items m nv p (i ++ [c])) = none) :
+    a.get (i ++ [c]) = d.get (bcastIdx (m.n ++ [nv]) d.shape (i ++ [c])) := by
+  rw [asArray_dict isZero items _ m nv a hlen h i hi c hc, hun]; rfl
+
+/-- … and a field default's sample at the cell centre, which (with `call_cell_contains`) is the
+value of a source cell containing that centre. -/
+theorem dict_default_field (isZero : V → Bool) (items : List (String × Leaf V)) (src : VF V)
+    (m : Mesh) (nv : Nat) (a : NDA V) (hlen : m.n.length = m.ndim)
+    (h : asArray isZero (.dict items (some (.field src))) m nv = .ok a)
+    (i : List Nat) (hi : inRange m.n i = true) (c : Nat) (hc : c < nv)
+    (hun : (m.subs.findSome? fun p => patchVal isZero items m nv p (i ++ [c])) = none)
+    (vs : List V) (hvs : src.call (m.centre i) = .ok vs) :
+    a.get (i ++ [c]) = vs.getD c default := by
+  rw [asArray_dict isZero items _ m nv a hlen h i hi c hc, hun]
+  simp [dfltVal, hvs]
 
 /-! ## acceptance (the hypotheses `… = .ok _` above are satisfiable) -/
 
 omit [Inhabited V] in
-/-- Two points of the region and `n ≥ 2` give a line on every mesh of dimension ≠ 1: all its points
-lie in the region, so all can be sampled. -/
-theorem line_accepts (f : VF V) (hnd : f.mesh.ndim ≠ 1) (p1 p2 : List Rat) (n : Nat) (hn : 2 ≤ n)
+/-- Two points of the region and `n ≥ 2` give a line on every mesh, one-dimensional ones included
+(formerly finding D43): all its points lie in the region, so all can be sampled. -/
+theorem line_accepts (f : VF V) (p1 p2 : List Rat) (n : Nat) (hn : 2 ≤ n)
     (h1 : f.mesh.region.containsExact p1) (h2 : f.mesh.region.containsExact p2) :
     ∃ o, f.line p1 p2 n = .ok o := by
   have c1 := containsPt_exact _ p1 h1.1 h1.2
@@ -634,7 +625,7 @@ theorem line_accepts (f : VF V) (hnd : f.mesh.ndim ≠ 1) (p1 p2 : List Rat) (n 
     exact segment_in _ _ _ _ j n hn hj (h1.2 a ha) (h2.2 a ha))
   unfold VF.line
   rw [hml]
-  simp only [hvals, hnd, if_false]
+  simp only [hvals]
   exact ⟨_, rfl⟩
 
 /-- A label of the field is accepted by component access. -/
@@ -652,7 +643,7 @@ open Ex
 
 /-- hypotheses of `asArray_dict`, `asArray_dict_first_listed`, `region2slices_cells` hold here:
 `{"r2": 2, "r1": 1, "default": 0}` on the mesh with overlapping `r1`, `r2` is accepted -/
-example : ∃ a, asArray (fun v : Rat => v == 0) none
+example : ∃ a, asArray (fun v : Rat => v == 0)
     (.dict [("r2", .scalar 2), ("r1", .scalar 1)] (some (.val (NDA.const [] 0)))) m0 1 = .ok a ∧
     a.shape = [4, 2, 1] := by
   apply asArray_dict_accepts _ _ _ m0 m0_inv 1 k1 k2 m0_aligned
@@ -687,11 +678,23 @@ example : ∃ sm : Mesh, sm.Inv ∧ sm.ndim = m0.ndim ∧ m0.region.dims = sm.re
 
 /-- hypotheses of the line theorems: the diagonal of the mesh with 3 points is a line -/
 example (data : NDA Rat) : ∃ o, (VF.mk m0 1 data none).line [0, 0] [4, 2] 3 = .ok o :=
-  line_accepts _ (show m0.ndim ≠ 1 by decide) _ _ _ (by omega)
+  line_accepts _ _ _ _ (by omega)
     (show m0.region.containsExact [0, 0] from
       ⟨rfl, fun a ha => by rcases lt_two a ha with rfl | rfl <;> decide⟩)
     (show m0.region.containsExact [4, 2] from
       ⟨rfl, fun a ha => by rcases lt_two a ha with rfl | rfl <;> decide⟩)
+
+/-- … and so is a segment of a ONE-dimensional mesh (6 cells on [0, 6]) -/
+example (data : NDA Rat) :
+    ∃ o, (VF.mk ⟨⟨[0], [6], ["x"], ["m"], 1 / 1000000000000⟩, [6], "", []⟩ 1 data none).line [1] [5] 3
+      = .ok o :=
+  line_accepts _ _ _ _ (by omega)
+    (show Region.containsExact ⟨[0], [6], ["x"], ["m"], 1 / 1000000000000⟩ [1] from
+      ⟨rfl, fun a ha => by have h0 : a = 0 := Nat.lt_one_iff.mp ha
+                           subst h0; decide⟩)
+    (show Region.containsExact ⟨[0], [6], ["x"], ["m"], 1 / 1000000000000⟩ [5] from
+      ⟨rfl, fun a ha => by have h0 : a = 0 := Nat.lt_one_iff.mp ha
+                           subst h0; decide⟩)
 
 /-- hypothesis of `asArray_func`: `p ↦ (p_x, p_y, 1)` returns 3 values everywhere -/
 example : ∀ i, inRange m0.n i = true → ((fun p : List Rat => [p.getD 0 0, p.getD 1 0, 1]) (m0.centre i)).length = 3 :=
